@@ -12,6 +12,10 @@ Differential oracle on observable outputs (DESIGN §2/C07):
                re-injecting s into A replays outputs and ctx                   -> not-seed-determined (replay differs)
                global NumPy / Torch / Python state bit-identical around calls  -> global-rng-consumed
                ... and around every set_rng(explicit generator) itself         -> injection-consumes-global-rng
+               copy.deepcopy / pickle round trip of the injected instance continues
+               like the original (outputs, ctx), taking it leaves the global RNGs alone  -> copied-instance-diverges / copy-consumes-global-rng
+  compositions include ones whose public member list `transforms` was edited after construction (append / insert / replace / filled
+  by a subclass after super().__init__), at top level and nested
                an in-domain construction / injection / call raising           -> *-crash / *-refused
 
 A violating composition is minimised over its sub-trees (each sub-tree is a self-contained spec): the reported witness is
@@ -19,6 +23,8 @@ the smallest sub-tree that still violates, and the mechanism key names the class
 """
 from __future__ import annotations
 
+import copy
+import pickle
 import random as pyrandom
 
 import numpy as np
@@ -53,8 +59,11 @@ ASSUMPTIONS = [
     "re-injection) and around every call after it; constructors and worker_init_fn draw from the global NumPy RNG by design and are "
     "outside the sentinel windows",
     "seed sensitivity (another seed gives another output) is evidence that the workload draws at all, never a verdict",
+    "whether an instance can be deep-copied / pickled at all is not judged (counted as handles_not_copyable); only copies that exist must continue like the original",
+    "member lists are edited through the public `transforms` attribute before the generator is injected",
 ]
 MONITORS = ["instance_pairs_compared", "outputs_compared", "ctx_entries_compared", "replays_compared", "sentinel_windows", "injection_windows",
+            "copy_windows", "copied_handles_compared", "edited_member_lists",
             "seed_sensitive_cases", "histories_before_injection"]
 
 BOUNDARY_SEEDS = [0, 1, 5, 2 ** 32 - 1, 2 ** 32, 2 ** 63 - 1]
@@ -64,7 +73,7 @@ WITNESSES_PER_KEY = 5
 
 # ------------------------------------------------------------------------------------------------ generation
 def _case(rng, tree, T):
-    n = rng.choice([1, 2, 3, 3, 4])
+    n = rng.choice([1, 2, 3, 3, 4, 4])
     hist = {
         "calls": rng.choice([0, 1, 2, 3, 5]),
         "pre_seed": rng.choice([None, None, rng.randrange(2 ** 32)]),
@@ -81,6 +90,8 @@ def _case(rng, tree, T):
     return {
         "tree": tree, "in": T, "x_seeds": [rng.randrange(10 ** 6) for _ in range(n)], "s": s, "s_alt": s_alt, "g": [g1, g2],
         "perturb": [rng.randrange(2 ** 31) for _ in range(4)], "hist": hist,
+        # second handles (copy.deepcopy / pickle round trip of the injected instance) are taken before call number `at`
+        "handle": {"at": rng.choice([0, 0, rng.randrange(n)])},
     }
 
 
@@ -129,7 +140,7 @@ def gen_cases(run):
                     spec["_trivial"] = True
                 yield spec
     # (2) random compositions
-    for i in range(run.n(700, 64000)):
+    for i in range(run.n(600, 64000)):
         T = H.random_input_type(rng)
         depth = rng.choice([1, 2, 2, 3, 3])
         tree, _ = H.gen_composition(rng, T, depth, flags)
@@ -295,10 +306,40 @@ def evaluate(spec, stats=None, until=PH_EVIDENCE):
 
     # ---- paired calls: same inputs, equal injected seeds, different global states
     ra = []
+    handles = []
+    hs = spec.get("handle")
     for i in range(len(inputs)):
+        if hs is not None and i == min(hs["at"], len(inputs) - 1):
+            # second handles of the injected instance: a deep copy and a pickle round trip (what a dataloader worker gets)
+            # must continue exactly like the original; taking them must not touch the global RNGs
+            for k, mode in enumerate(("deepcopy", "pickle")):
+                _seed_globals(pert[2] + 31 * i + k)
+                before = S.snapshot()
+                try:
+                    c = copy.deepcopy(A) if mode == "deepcopy" else pickle.loads(pickle.dumps(A))
+                except Exception:  # noqa: BLE001 - whether an object can be copied at all is not this property's subject
+                    bump(f"handles_not_copyable[{mode}]")
+                    continue
+                after = S.snapshot()
+                bump("copy_windows")
+                d = S.diff(before, after)
+                if d:
+                    return {"kind": f"copy-consumes-global-rng:{'+'.join(d)}", "phase": PH_PAIR,
+                            "what": f"{mode} of an instance with an injected generator (taken before call {i}) changed the process-global {d} RNG state"}
+                handles.append((mode, c))
         a = one(A, "A", i, 0, PH_PAIR)
         if isinstance(a, dict):
             return a
+        for k, (mode, c) in enumerate(handles):
+            r_ = one(c, f"{mode} of A", i, 4 + k, PH_PAIR)
+            if isinstance(r_, dict):
+                return r_
+            bump("copied_handles_compared")
+            if r_ != a:
+                part = "output" if r_[0] != a[0] else "recorded ctx"
+                return {"kind": "copied-instance-diverges", "phase": PH_PAIR,
+                        "what": f"a {mode} of the instance taken after set_rng(default_rng({spec['s']})) (before call {hs['at']}) does not continue "
+                                f"like the original: {part} of call {i} differs{_census_hint(A)}"}
         b = one(B, "B", i, 1, PH_PAIR)
         if isinstance(b, dict):
             return b
@@ -440,8 +481,13 @@ def run_case(run, spec):
             run.cover("patchwise", n["child"]["t"], n["in"]["kind"])
         elif n["t"] == "compose":
             run.cover("compose", len(n["members"]), bool(n.get("implicit")))
+            if n.get("edit"):
+                run.count("edited_member_lists")
+                run.cover("compose-edit", n["edit"]["mode"], n is not tree, n["members"][n["edit"].get("pos", 0)]["t"])
     run.cover("seed", "boundary" if spec["s"] in BOUNDARY_SEEDS else "random")
     run.cover("history", spec["hist"]["calls"] > 0, spec["hist"]["pre_seed"] is not None, spec["hist"]["winit"])
+    if spec.get("handle"):
+        run.cover("handle", "start" if spec["handle"]["at"] == 0 else "mid-stream")
     for c in set(labels):
         _note(run, "classes_exercised", c)
     if finding is None:
@@ -471,6 +517,8 @@ def _brief(node):
         return f"{H.RECIPES[node['recipe']].cls.__name__}({', '.join(f'{k}={v}' for k, v in node['params'].items())})"
     if t in ("compose", "semseg_seq"):
         name = "Compose" if t == "compose" else "SemsegSeq"
+        if node.get("edit"):
+            name += f"<{node['edit']['mode']}@{node['edit'].get('pos', 0)}>"
         return f"{name}[{', '.join(_brief(m) for m in node['members'])}]"
     if t == "random_apply":
         return f"RandomApply(p={node['p']}, {_brief(node['child'])})"
